@@ -143,7 +143,11 @@ func Check(r *ev.Run, replay string) {
 				continue
 			}
 			seq, after := sequential(sc)
-			st := dsched.Explore(scenario(sc, seq, after), bound, limit)
+			b := bound
+			if !r.Thorough() && len(seq) > 2 {
+				b = 1 // quick: the three-evaluation scenarios with one preemption (two exceed the execution budget)
+			}
+			st := dsched.Explore(scenario(sc, seq, after), b, limit)
 			r.Eval(st.Executions)
 			r.Add("transitions", st.Points)
 			r.Add("traces_validated_against_impl", st.Executions)
@@ -166,10 +170,8 @@ func Check(r *ev.Run, replay string) {
 	})
 	r.Set("scenarios", len(scs))
 	r.Set("preemption_bound", bound)
-	if r.Thorough() {
-		raceSupplement(r)
-	}
-	r.Set("rule", fmt.Sprintf("%d scenarios of 2-3 concurrent evaluations on separate VMs that meet on one piece of package-level or shared state (Go type registries via globals, field access and proxy calls; codec registry; a shared importer; one compiled code object on two VMs; two clones of one VM); the package caches are reset before every execution; every schedule of the lock and access hook points with at most %d preemptions; oracle: vector-clock happens-before race detection on the hooked accesses + each result equals the sequential result. Thorough adds a free-running -race build of the same bodies as a supplement.", len(scs), bound))
+	raceSupplement(r)
+	r.Set("rule", fmt.Sprintf("%d scenarios of 2-3 concurrent evaluations on separate VMs that meet on one piece of package-level or shared state (Go type registries via globals, field access and proxy calls; codec registry; a shared importer; one compiled code object on two VMs; two clones of one VM); the package caches are reset before every execution; every schedule of the lock and access hook points with at most %d preemptions (quick: 1 for the scenarios with three evaluations); oracle: vector-clock happens-before race detection on the hooked accesses + each result equals the sequential result. The same bodies also run free (6 rounds, thorough 40, x 4 copies of every body at once, caches reset per round) in a build with Go's race detector, which reports unsynchronised accesses that no hook names.", len(scs), bound))
 }
 
 func signature(v string) string {
@@ -188,22 +190,25 @@ func signature(v string) string {
 // raceSupplement builds the free-running harness with -race and runs it; it can only add true reports.
 func raceSupplement(r *ev.Run) {
 	bin := ev.Home + "/.work/bin/c09race"
-	repo := ev.RepoDir
-	args := []string{"build", "-race", "-tags", "verif", "-o", bin}
-	if repo != "/repo" {
-		// built by the wrapper with a modfile when a scratch copy is used: skip the supplement there
-		r.Set("race_supplement", "skipped (scratch copy)")
-		return
+	args := []string{"build", "-race", "-tags", "verif"}
+	if mf := os.Getenv("VERIF_MODFLAG"); mf != "" {
+		args = append(args, mf) // a scratch copy of the repository is being checked
+		bin += "-alt"
 	}
-	args = append(args, "./cmd/c09race")
+	args = append(args, "-o", bin, "./cmd/c09race")
 	cmd := exec.Command("go", args...)
 	cmd.Dir = ev.Home + "/engine"
 	cmd.Env = append(os.Environ(), "GOFLAGS=-mod=mod", "GOPROXY=off", "GOSUMDB=off", "GOTOOLCHAIN=local", "GOWORK=off", "CGO_ENABLED=1")
 	if out, err := cmd.CombinedOutput(); err != nil {
-		r.Set("race_supplement", "not run: -race build failed: "+ev.Clip(string(out), 300))
+		r.EngineError("race supplement: -race build failed: " + ev.Clip(string(out), 400))
 		return
 	}
-	out, _ := exec.Command(bin).CombinedOutput()
+	rounds := "6"
+	if r.Thorough() {
+		rounds = "40"
+	}
+	out, _ := exec.Command(bin, rounds).CombinedOutput()
+	r.Set("race_supplement_rounds", rounds)
 	n := strings.Count(string(out), "WARNING: DATA RACE")
 	r.Set("race_supplement_reports", n)
 	if n > 0 {
